@@ -164,14 +164,27 @@ SingleToDoubleBits(s) ==      \* s: 32 bits LSB first
                  mant == SubSeq(Shl(Trim(frac), 53 - n), 1, 52)    \* drop the leading 1
              IN  mant \o FixBits(n - 1 - 149 + 1023, 11) \o <<sign>>
 
+\* |a / b - m 2^e| <= k 2^e  (k ulps of the double (m, e)), for bit naturals a, b > 0, m and integer e
+QuotientWithinUlps(a, b, m, e, k) ==
+    LET sh == IF e < 0 THEN -e ELSE 0
+        up == IF e > 0 THEN e ELSE 0
+        A == Shl(a, sh)                              \* a 2^sh
+        MB == Shl(BMul(m, b), up)                    \* m b 2^e 2^sh
+        T == Shl(BMul(FromInt(k), b), up)            \* k b 2^e 2^sh
+    IN  BLe(BAbsDiff(A, MB), T)
 \* does the double with bit pattern dbits (64 bits) equal the meaning of decoded real r ?
+\* A ratio whose terms are exact doubles (below 2^53) must come out correctly rounded (one IEEE
+\* division); with a wider term the conversion of that term rounds first, and the result is held
+\* to 2 units in the last place.
 RealMeansDouble(r, dbits) ==
     CASE r.kind = "double" -> r.bits = dbits
       [] r.kind = "single" -> SingleToDoubleBits(r.bits) = dbits
       [] r.kind = "ratio" ->
             IF IsZero(r.a) THEN DblIsZero(dbits)
             ELSE /\ DblIsFinite(dbits) /\ (DblSign(dbits) = 1) = r.neg
-                 /\ IsRoundedQuotient(r.a, r.b, DblMant(dbits), DblExp(dbits))
+                 /\ IF BitLen(r.a) <= 53 /\ BitLen(r.b) <= 53
+                    THEN IsRoundedQuotient(r.a, r.b, DblMant(dbits), DblExp(dbits))
+                    ELSE QuotientWithinUlps(r.a, r.b, DblMant(dbits), DblExp(dbits), 2)
 \* ... and exactly (no rounding at all): what a LOSSLESS encoding of the double must satisfy
 RealIsExactlyDouble(r, dbits) ==
     CASE r.kind = "double" -> r.bits = dbits
